@@ -278,7 +278,8 @@ def replay(ctx, rec):
     case = rec["case"]
     res = run_workers(ctx, "c10", "replay_groups", [(case["hashseed"], {"groups": [case["group"]], "seed": case["seed"], "stub": None})])[0]
     same = [f for f in res["fails"] if f["api"] == rec["api"] and f["clause"] == rec["clause"]]
-    return (same or res["fails"])[:1] or None
+    hit = same or res["fails"]
+    return hit[0] if hit else None
 
 
 def selftest(ctx):
@@ -413,7 +414,7 @@ def _stub_classes(stub, classes):
     if stub == "bic_not_equivalent":
         class Bad(Bic):
             def local_score(self, variable, parents):
-                return super().local_score(variable, parents) - 0.01 * len(list(parents)) ** 2
+                return super().local_score(variable, parents) - (0.01 * len(list(parents)) if variable == min(self.variables) else 0.0)
         return (K2, BDeu, BDs, Bad, Aic)
     return classes
 
@@ -542,6 +543,8 @@ def replay_groups(payload):
                              {"orders": [[str(conc.vn[p]) for p in order], [str(conc.vn[p]) for p in pm]]})
                         break
                 # ---- rows / columns / declared-state order permuted, other names and dtypes
+                if not g["full"] and (len(obs) + ntraces) % 2:
+                    continue                        # exhaustive small universes: every other entry (alternating per record)
                 calls[0] += 1
                 tick("data_permutation")
                 try:
